@@ -4,6 +4,7 @@ mod hooks;
 mod l2;
 mod panics;
 mod pipe;
+mod rawsrv;
 mod rng;
 mod scenarios;
 mod simio;
